@@ -181,6 +181,71 @@ def run_graph(tape, spec, request, cfg, faults=None, fail=None, recorders=None,
     return obs
 
 
+COLLECTION_ENTRIES = ("threaded", "async", "mp", "mp_noopt", "sync")
+
+
+def make_get(sim, entry, num_workers=None, chunksize=None):
+    """A `scheduler=` callable running the real entry point on the E1 simulator."""
+    import dask
+    import dask.local
+    import dask.multiprocessing
+    import dask.threaded
+
+    nw = num_workers or sim.max_workers
+    kw0 = {}
+    if chunksize is not None:
+        kw0["chunksize"] = chunksize
+
+    def get(dsk, keys, **kw):
+        kw = dict(kw0, **kw)
+        kw.pop("num_workers", None)
+        kw.pop("pool", None)
+        if entry == "sync":
+            return dask.local.get_sync(dsk, keys, **kw)
+        if entry == "async":
+            return dask.local.get_async(sim.executor.submit, nw, dsk, keys, **kw)
+        if entry == "threaded":
+            return dask.threaded.get(dsk, keys, pool=sim.executor, **kw)
+        if entry in ("mp", "mp_noopt"):
+            return dask.multiprocessing.get(dsk, keys, pool=sim.executor,
+                                            optimize_graph=(entry == "mp"), **kw)
+        raise HarnessError(entry)
+
+    get.__name__ = f"sim_{entry}_get"
+    return get
+
+
+class SimRun:
+    """Context: one E1 simulation + tripwire, usable for several computes."""
+
+    def __init__(self, tape, entry=None, num_workers=None, policy=None, chunksize=None,
+                 faults=None, step_cap=20000, clock=None):
+        with tape.span("simrun"):
+            self.entry = entry or tape.choice(COLLECTION_ENTRIES, "entry")
+            self.num_workers = num_workers or 1 + tape.draw(8, "nw")
+            self.policy = policy or tape.choice(POLICIES, "policy")
+            self.chunksize = chunksize if chunksize is not None else \
+                (None, 1, 2, 6, -1)[tape.draw(5, "chunk")]
+        self.sim = Sim(tape, max_workers=self.num_workers, policy=self.policy, faults=faults,
+                       step_cap=step_cap, clock=clock)
+        self.get = make_get(self.sim, self.entry, self.num_workers, self.chunksize)
+        self._tw = tripwire()
+
+    def describe(self):
+        return {"entry": self.entry, "num_workers": self.num_workers, "policy": self.policy,
+                "chunksize": self.chunksize}
+
+    def __enter__(self):
+        self._tw.__enter__()
+        self.sim.__enter__()
+        return self
+
+    def __exit__(self, *a):
+        self.sim.__exit__(*a)
+        self._tw.__exit__(*a)
+        return False
+
+
 class _null:
     def __enter__(self):
         return self
